@@ -24,11 +24,17 @@ const (
 	evCut
 	evRestartI
 	evRestartA
+	evPeerI
+	evPeerA
 )
 
-var c05Names = []string{"step", "step(other wire first)", "send on initiator", "send on acceptor", "cut connection", "restart initiator", "restart acceptor"}
+var c05Names = []string{"step", "step(other wire first)", "send on initiator", "send on acceptor", "cut connection", "restart initiator", "restart acceptor", "silent-peer timer fires on the initiator", "silent-peer timer fires on the acceptor"}
 
-type c05Budget struct{ Sends, Faults, Swaps int }
+type c05Budget struct {
+	Sends, Faults, Swaps int
+	Timers               int    // silent-peer timer firings (either side)
+	Begin                string `json:",omitempty"` // BeginString of both engines (default FIX.4.2)
+}
 
 type c05Case struct {
 	File   bool      `json:"file_store"`
@@ -43,11 +49,15 @@ func c05Build(file bool, scratch string, path []uint8, b c05Budget) (p *sessmc.P
 	if file {
 		dir = scratch
 	}
-	p, err = sessmc.NewPair(dir)
+	bs := b.Begin
+	if bs == "" {
+		bs = "FIX.4.2"
+	}
+	p, err = sessmc.NewPairBS(dir, bs)
 	if err != nil {
 		return nil, false, err
 	}
-	sI, sA, faults, swaps := 0, 0, 0, 0
+	sI, sA, faults, swaps, timers := 0, 0, 0, 0, 0
 	ok = true
 	for i, e := range path {
 		last := i == len(path)-1
@@ -90,6 +100,12 @@ func c05Build(file bool, scratch string, path []uint8, b c05Budget) (p *sessmc.P
 			} else {
 				faults++
 				p.Restart(e == evRestartI)
+			}
+		case evPeerI, evPeerA:
+			if timers >= b.Timers || !p.PeerTimer(e == evPeerI) {
+				ok = false
+			} else {
+				timers++
 			}
 		}
 		if !ok {
@@ -181,17 +197,18 @@ func init() {
 
 func runC05(c *core.Ctx) {
 	quick := c.Quick()
-	budgets := []c05Budget{{Sends: 2, Faults: 1, Swaps: 1}, {Sends: 1, Faults: 2, Swaps: 1}}
+	budgets := []c05Budget{{Sends: 2, Faults: 1, Swaps: 1}, {Sends: 1, Faults: 2, Swaps: 1}, {Sends: 1, Faults: 1, Swaps: 1, Timers: 1}, {Sends: 1, Faults: 1, Swaps: 0, Begin: "FIX.4.1"}}
 	maxDepth := 60
 	if quick {
 		c.SetDeadline(5 * time.Minute)
 	} else {
-		budgets = []c05Budget{{Sends: 2, Faults: 2, Swaps: 1}, {Sends: 3, Faults: 2, Swaps: 1}, {Sends: 2, Faults: 3, Swaps: 2}}
+		budgets = []c05Budget{{Sends: 2, Faults: 2, Swaps: 1}, {Sends: 3, Faults: 2, Swaps: 1}, {Sends: 2, Faults: 3, Swaps: 2}, {Sends: 2, Faults: 2, Swaps: 1, Timers: 2},
+			{Sends: 2, Faults: 2, Swaps: 1, Begin: "FIX.4.1"}, {Sends: 2, Faults: 2, Swaps: 1, Begin: "FIX.4.0"}, {Sends: 2, Faults: 2, Swaps: 1, Begin: "FIX.4.4"}}
 		maxDepth = 90
 		c.SetDeadline(55 * time.Minute)
 	}
 	budget := budgets[0]
-	c.SetRule(fmt.Sprintf("BFS over the deviation events {application send on either side (also while disconnected), connection cut (loses all in-flight bytes in both directions), engine restart on the file store, delivering the other wire first} interleaved at every step of the default schedule of two real sessions (initiator + acceptor) joined by two FIFO wires through the real stream parser; budget profiles (sends per side / faults / ordering deviations) quick 2/1/1 and 1/2/1, thorough 2/2/1, 3/2/1, 2/3/2 (first: %d/%d/%d); states de-duplicated by the canonical key of both sessions + wires + deliveries; safety in every state, convergence probe (reconnect, quiesce, up to 3 heartbeat rounds) from every state", budget.Sends, budget.Faults, budget.Swaps))
+	c.SetRule(fmt.Sprintf("BFS over the deviation events {application send on either side (also while disconnected), connection cut (loses all in-flight bytes in both directions), engine restart on the file store, delivering the other wire first, the silent-peer timer firing on either side (TestRequest racing the recovery)} interleaved at every step of the default schedule of two real sessions (initiator + acceptor) joined by two FIFO wires through the real stream parser; budget profiles (sends per side / faults / ordering deviations / timer firings) quick 2/1/1/0, 1/2/1/0, 1/1/1/1 and FIX.4.1 1/1/0/0, thorough 2/2/1/0, 3/2/1/0, 2/3/2/0, 2/2/1/2 and FIX.4.0/4.1/4.4 2/2/1/0 (first: %d/%d/%d); states de-duplicated by the canonical key of both sessions + wires + deliveries; safety in every state, convergence probe (reconnect, quiesce, up to 3 heartbeat rounds) from every state", budget.Sends, budget.Faults, budget.Swaps))
 	c.Assume("sequence resets disabled; FIX.4.2; heartbeat timers are fired by the probe, not by wall-clock", "a connection cut loses in-flight bytes of both directions at the same instant (combined with ordering deviations for asymmetric loss)",
 		"restarts only with the file store; the memory-store run explores cuts only")
 	scratch, cleanup := core.Scratch("c05")
@@ -223,7 +240,7 @@ func runC05(c *core.Ctx) {
 								capped = true // time budget, or the state table has reached its memory budget
 								break
 							}
-							for e := uint8(0); e <= evRestartA; e++ {
+							for e := uint8(0); e <= evPeerA; e++ {
 								path := append(append([]uint8{}, frontier[i].path...), e)
 								p, ok, err := c05Build(file, scratch, path, budget)
 								if err != nil {
@@ -243,11 +260,11 @@ func runC05(c *core.Ctx) {
 								h := fnv.New64a()
 								h.Write([]byte(p.Key()))
 								// budgets used are part of the state
-								cnt := [7]int{}
+								cnt := [9]int{}
 								for _, x := range path {
 									cnt[x]++
 								}
-								fmt.Fprintf(h, "|%d,%d,%d,%d", cnt[evSendI], cnt[evSendA], cnt[evCut]+cnt[evRestartI]+cnt[evRestartA], cnt[evSwap])
+								fmt.Fprintf(h, "|%d,%d,%d,%d,%d", cnt[evSendI], cnt[evSendA], cnt[evCut]+cnt[evRestartI]+cnt[evRestartA], cnt[evSwap], cnt[evPeerI]+cnt[evPeerA])
 								if _, dup := seen.LoadOrStore(h.Sum64(), true); dup {
 									p.Close()
 									continue
@@ -282,7 +299,7 @@ func runC05(c *core.Ctx) {
 			if file {
 				store = "file"
 			}
-			c.Set(fmt.Sprintf("depth_completed_%s_%d_%d_%d", store, budget.Sends, budget.Faults, budget.Swaps), depthDone)
+			c.Set(fmt.Sprintf("depth_completed_%s_%d_%d_%d_t%d%s", store, budget.Sends, budget.Faults, budget.Swaps, budget.Timers, budget.Begin), depthDone)
 			c.AddCounter("convergence_probes", probes)
 			if capped {
 				c.Cap(fmt.Sprintf("%s store: search stopped at depth %d", store, depthDone))
